@@ -327,8 +327,10 @@ def decide(tier, seed):
                             evaluations=n + len(names), distinct_nontrivial=n, rule="every struct and enum of the crate (macro-generated tuple variants included) x {Send, Sync}; all are distinct; non-trivial = has a synthesized auto-trait impl to compare with",
                             samples=samples or [dict(note="no table")], exhaustive=True, proof_status=("ok" if pr["ok"] else pr["why"])),
               assumptions=["nightly rustdoc JSON reflects the types rustc compiles", "atoms (type parameters and their associated types) are opaque: parametricity in the child types"])
-    os.makedirs(os.path.join(ROOT, "evidence"), exist_ok=True)
-    json.dump(ev, open(os.path.join(ROOT, "evidence", pid + ".json"), "w"), indent=1)
+    # evidence belongs to /repo itself; a run against another tree (VERIF_REPO) writes under .cache/ instead
+    evdir = os.path.join(ROOT, "evidence") if REPO == "/repo" else os.path.join(CACHE, "evidence-" + REPO_TAG)
+    os.makedirs(evdir, exist_ok=True)
+    json.dump(ev, open(os.path.join(evdir, pid + ".json"), "w"), indent=1)
     print(f"C18 tier={tier} types={len(info)} pairs={n} proofs={'ok' if pr['ok'] else 'BROKEN'} probes={'ok' if rc == 0 else 'FAIL'} wall={time.time()-t0:.1f}s")
     return 1 if violation else 0
 
